@@ -8,6 +8,7 @@
 package zzverif
 
 import (
+	"strconv"
 	"encoding/json"
 	"fmt"
 	"os"
@@ -109,6 +110,20 @@ func Choice(label string, n int) int { return int(draw(label)) }
 
 // Str returns an arbitrary opaque string: two results are equal iff the solver made them equal.
 func Str(label string) string { return fmt.Sprintf("zs%d", draw(label)) }
+
+// StrN returns an arbitrary byte string of length <= max (every byte symbolic): equality, len, constant
+// slicing and constant indexing are exact in the engine.
+func StrN(label string, max int) string {
+	n := int(draw(label + ".len"))
+	b := make([]byte, max)
+	for i := range b {
+		b[i] = byte(draw(label + ".b" + strconv.Itoa(i)))
+	}
+	if n > max {
+		n = max
+	}
+	return string(b[:n])
+}
 
 // Time returns an arbitrary non-zero instant within ±2^61 ns of the epoch.
 func Time(label string) time.Time {
